@@ -41,6 +41,18 @@ def inv_cached_selection(obj, v):
     return (is_int(v) and v == 0) or (v is SEL(obj) and (v is None or is_instance(v, "Symbol")))
 
 
+@invariant("_has_active_indirect_set")
+def inv_has_active_indirect_set(obj, v):
+    """`set` only targets non-bool options (language.rst): a bool or untyped option is never forced"""
+    return (obj.orig_type != BOOL and obj.orig_type != UNKNOWN) or v == False  # noqa: E712
+
+
+@invariant("_write_to_conf")
+def inv_write_to_conf(obj, v):
+    """an option without a type has no value of its own and is never written"""
+    return obj.orig_type != UNKNOWN or v == False  # noqa: E712
+
+
 # ------------------------------------------------------------------------------------------------ shapes
 def is_item(x):
     return is_instance(x, "Symbol") or is_instance(x, "Choice")
@@ -351,6 +363,9 @@ class C_Symbol_str_value:
     def ensures_forced(self, result):
         return (self.orig_type == UNKNOWN or self.orig_type == BOOL
                 or self._has_active_indirect_set == FORCED(self))
+
+    def ensures_cached(self, result):
+        return self._cached_str_val == result
 
 
 @contract(M, "Choice.str_value", params=["self"], kind="property", cls="Choice", result="str", modifies=CACHES)
